@@ -152,6 +152,13 @@ func replayVisit(checker string) func(rc *runCtx, h *harness, v *interp.Violatio
 					why = " first skip: " + r.Detail
 				}
 			}
+			if os.Getenv("GSX_DEBUG_REALISE") != "" {
+				for i, s := range sources {
+					if i < 4 {
+						fmt.Fprintf(os.Stderr, "--- realisation %d\n%s\n", i, s)
+					}
+				}
+			}
 			return false, fmt.Sprintf("%d realisations ran without reproducing (%v)%s", len(results), st, why)
 		}
 		vf["realised"] = []string{sources[confirmed]}
